@@ -880,6 +880,99 @@ def run_filtered_stream(ctx, res, deep):
                 break
 
 
+MULTI_TEXT = """[request_definition]
+r = sub, obj, act
+r2 = sub, obj, act
+
+[policy_definition]
+p = sub, obj, act
+p2 = sub, obj, act
+
+[policy_effect]
+e = some(where (p.eft == allow))
+e2 = some(where (p2.eft == allow))
+
+[matchers]
+m = r.sub == p.sub && r.obj == p.obj && r.act == p.act
+m2 = r2.sub == p.sub && r2.obj == p.obj && r2.act == p.act
+m3 = r2.sub == p2.sub && r2.obj == p2.obj && r2.act == p2.act
+"""
+# enforce contexts: the default definitions spelled out; a second request definition and matcher over the SAME (indexed)
+# policy definition p; a full second definition (p2 is a plain list in FastModel)
+CONTEXTS = {"default": ("r", "p", "e", "m"), "r2m2-over-p": ("r2", "p", "e", "m2"), "second": ("r2", "p2", "e2", "m3")}
+
+
+def _context_case(args):
+    """the same rules in a FastEnforcer and an Enforcer; every request of the universe WITH an EnforceContext in front
+    (and without, as the baseline): decisions of the two (implementation side: the property's statement itself)"""
+    import shutil
+    import tempfile
+
+    shape, order, rules, grules, cname = args
+    casbin = casbin_mod()
+    d = None
+    try:
+        if shape == "multi":
+            d = tempfile.mkdtemp(prefix="c19c_")
+            path = os.path.join(d, "model.conf")
+            with open(path, "w") as f:
+                f.write(MULTI_TEXT)
+            fast, plain = casbin.FastEnforcer(path, cache_key_order=list(order)), casbin.Enforcer(path)
+            reqs = request_universe("acl")
+        else:
+            fast, plain = make_pair(shape, order)
+            for e in (fast, plain):
+                e.clear_policy()
+            reqs = request_universe(shape)
+        for e in (fast, plain):
+            for r in rules:
+                e.add_policy(*r)
+                if shape == "multi":
+                    e.add_named_policy("p2", r[0], r[2], r[1])  # p2 holds different rules than p
+            for gr in grules:
+                e.add_grouping_policy(*gr)
+        out = []
+        for req in reqs:
+            row = []
+            for e in (fast, plain):
+                c = casbin.core_enforcer.EnforceContext(*CONTEXTS[cname])
+                try:
+                    row.append(fmt_val(e.enforce(c, *req)))
+                except Exception as ex:  # noqa
+                    row.append(fmt_exc(ex))
+            out.append((req, row[0], row[1]))
+        return out
+    finally:
+        if d:
+            shutil.rmtree(d, ignore_errors=True)
+
+
+def run_context_stream(ctx, res, deep):
+    """requests carrying an EnforceContext (Enforcer.enforce(ctx, sub, obj, act)): ACL, RBAC, RBAC-with-deny with the default
+    context, and a model with several definitions, x every admissible key order x policies drawn from the rule universe"""
+    rng = ctx["rng"]
+    jobs = []
+    for shape in list(SHAPES) + ["multi"]:
+        base = "acl" if shape == "multi" else shape
+        U = rule_universe(base)
+        for order in ORDERS[base]:
+            for cname in (["default"] if shape != "multi" else list(CONTEXTS)):
+                pols = [U[:3], [U[0], U[-1]]] + [rng.sample(U, rng.randint(1, min(6, len(U)))) for _ in range(2 if not deep else 12)]
+                for rules in pols:
+                    jobs.append((shape, order, rules, GRULES if HAS_G.get(base) else [], cname))
+    for job in jobs:
+        shape, order, rules, grules, cname = job
+        out = _context_case(job)
+        res.nontrivial.add(hash(("context", repr(job))))
+        for req, f, p in out:
+            res.evaluations += 1
+            res.count("stream:context:" + cname)
+            if f != p:
+                res.violation(dict(signature=f"enforce-context:{cname}:decision", case=dict(kind="context", shape=shape, order=order, rules=rules, grules=grules, context=cname, request=req), expected=p, observed=f,
+                                   what=f"{shape}, cache_key_order={order}, rules {rules}: enforce(EnforceContext{CONTEXTS[cname]}, {', '.join(repr(x) for x in req)}) = {f} on FastEnforcer, {p} on Enforcer"))
+                break
+
+
 def run(ctx):
     res = common.Result()
     rng = ctx["rng"]
@@ -895,6 +988,7 @@ def run(ctx):
             jobs += list(gen_random(rng, 2500, 30, 30))
         run_sections(res)
         run_filtered_stream(ctx, res, name == "thorough")
+        run_context_stream(ctx, res, name == "thorough")
         run_jobs(jobs, res)
         res.rule = (
             f"[{name}] every history of length <= {maxlen} over a {len(alphabet('acl', name != 'thorough'))}/{len(alphabet('rbac', name != 'thorough'))}-operation alphabet (add/remove single+batch, "
@@ -932,6 +1026,9 @@ def replay(obj):
     c = obj["case"]
     if c.get("kind") == "sections":
         return bool(run_sections(common.Result()))
+    if c.get("kind") == "context":
+        out = _context_case((c["shape"], c["order"], c["rules"], c["grules"], c["context"]))
+        return any(f != p for _, f, p in out)
     if c.get("kind") == "filtered-stream":
         rets, pols, decs = _filtered_case((c["shape"], c["order"], [tuple(o) for o in c["script"]]))[-1]
         return rets[0] != rets[1] or pols[0] != pols[1] or decs[0] != decs[1]
